@@ -1,5 +1,88 @@
-(* C02 -- placeholder while the proofs are being written (replaced below). *)
-From KS Require Import lib.Base model.Storage.
+(* C02 -- Offsets are unique, contiguous and increasing per partition.
+   Over model/Storage.v (fixes applied, see C01.v). [log s] is the list of batches the
+   live PartitionLog accepted, in lock order (committed ++ in flight ++ buffered);
+   [chain lo bs hi] says the offset extents [base, base+lastOffsetDelta] of bs tile
+   [lo,hi) in order and none is empty (hence unique and strictly increasing). The
+   input domain is every byte string: [parse_hdr] is exactly the acceptance test of
+   NewRecordBatchFromBytes (length >= 61, and after the fix lastOffsetDelta >= 0).
+   One clause is refuted on the current code and kept as a known finding
+   (concatenated-batches): see C02_visible_statement below. *)
+From KS Require Import lib.Base model.Storage proofs.StorageProofs.
 Open Scope Z_scope.
-Example C02_nonvacuous : run (init (mkCfg 0 0 0 1)) [] <> None.
-Proof. vm_compute. discriminate. Qed.
+
+(* (1) assigned extents tile [start, next) in append order: unique, increasing, no gap *)
+Theorem C02_assigned_chain : forall c evs s,
+  run (init c) evs = Some s -> s_live s = true -> chain (s_start s) (log s) (s_next s).
+Proof. exact assigned_chain. Qed.
+Print Assumptions C02_assigned_chain.
+
+(* (2) an accepted append gets base = previous end of the log, for any accepted bytes;
+       a rejected record set changes nothing *)
+Theorem C02_append_extends : forall c evs s t raw s' lod cnt,
+  run (init c) evs = Some s -> step s (EAppend t raw) = Some s' -> parse_hdr raw = Some (lod, cnt) ->
+  log s' = log s ++ [mkBatch (s_next s) lod cnt raw] /\ s_next s' = s_next s + lod + 1 /\ 0 <= lod.
+Proof. exact append_extends. Qed.
+Print Assumptions C02_append_extends.
+
+Theorem C02_rejected_no_effect : forall s t raw s',
+  step s (EAppend t raw) = Some s' -> parse_hdr raw = None -> s' = s.
+Proof. exact rejected_append_no_effect. Qed.
+Print Assumptions C02_rejected_no_effect.
+
+(* (3) no gap between acknowledged batches: every accepted batch is either durable in
+       S3 or still pending (in flight / buffered) -- a failed flush drops nothing *)
+Theorem C02_no_gap : forall c evs s,
+  run (init c) evs = Some s -> s_live s = true ->
+  forall b, In b (log s) -> durable s b \/ In b (s_fl s ++ s_buf s).
+Proof. exact no_gap. Qed.
+Print Assumptions C02_no_gap.
+
+(* (4) the base offset of a success response is the base patched into the stored bytes *)
+Theorem C02_response_base : forall c evs s,
+  run (init c) evs = Some s -> forall b, In b (s_acked s) ->
+  durable s b /\ firstn 8 (b_bytes b) = be64 (b_base b).
+Proof. exact response_base. Qed.
+Print Assumptions C02_response_base.
+
+(* (5) across restarts: after a restart the next offset is past every acknowledged one *)
+Theorem C02_restart_resumes : forall c evs s,
+  run (init c) evs = Some s -> s_live s = true ->
+  (forall b, In b (s_acked s) -> b_last b < s_next s) /\
+  (forall v, In v (s_pubs s) -> v <= s_next s) /\ s_store s <= s_next s.
+Proof. exact no_reuse. Qed.
+Print Assumptions C02_restart_resumes.
+
+(* (6) the consumer's view: walking each stored record set frame by frame (batchLength),
+       the extents seen tile the log. FULL STATEMENT: *)
+Definition C02_visible_statement : Prop := visible_statement.
+
+(* refuted on the faithful model: a record set made of two concatenated batches is
+   accepted as one batch; only the first frame's base is patched (known finding
+   concatenated-batches, reproduced on the implementation by the harness corpus) *)
+Theorem C02_visible_refuted : ~ C02_visible_statement.
+Proof. exact visible_refuted. Qed.
+Print Assumptions C02_visible_refuted.
+
+(* the same statement on the complement of the finding's input class: record sets whose
+   first frame is the whole record set (no further 61-byte header after 12+batchLength).
+   What is missing: multi-batch record sets. *)
+Theorem C02_visible_partial : forall c evs s,
+  run (init c) evs = Some s -> s_live s = true ->
+  Forall (fun b => concatenated (b_bytes b) = false) (log s) ->
+  chain_ext (s_start s) (flat_map visible (log s)) (s_next s).
+Proof. exact visible_partial. Qed.
+Print Assumptions C02_visible_partial.
+
+Example C02_nonvacuous :
+  (* four producers, a 3-record batch, a rejected negative-delta batch, a failed flush *)
+  let evs := [EAppend 0%nat (hdr61 49 2 3); EAppend 1%nat (hdr61 49 255 1 ++ [9]);
+              EAppend 2%nat (hdr61 49 0 1); EFlushBegin 2%nat; EUpSeg 2%nat true; EUpIdx 2%nat false;
+              EFailReset 2%nat; EAppend 3%nat (hdr61 49 1 2); EFlushBegin 0%nat] in
+  be_i32 (hdr61 49 255 1 ++ [9]) 23 = 255 /\
+  parse_hdr (map (fun x => if x =? 0 then 255 else x) (hdr61 49 1 1)) = None /\
+  match run (init (mkCfg 0 0 0 1)) evs with
+  | Some s => map (fun b => (b_base b, b_lod b)) (log s) = [(0, 2); (3, 255); (259, 0); (260, 1)] /\ s_next s = 262 /\
+              map b_base (s_fl s) = [0; 3; 259; 260]
+  | None => False
+  end.
+Proof. vm_compute. repeat split. Qed.
